@@ -96,7 +96,7 @@ func genSegCase(r *simrt.Rand, tier string) *SegCase {
 		// requests pipelined behind a closing exchange are legitimately dropped, and how many of
 		// them a server has already seen depends on the segmentation: only the last may close
 		for i := range c.Msgs[:len(c.Msgs)-1] {
-			c.Msgs[i].Proto, c.Msgs[i].Conn = "HTTP/1.1", ""
+			c.Msgs[i].Proto, c.Msgs[i].Conn, c.Msgs[i].Conn2 = "HTTP/1.1", "", ""
 		}
 	}
 	return c
@@ -108,7 +108,7 @@ func (c *SegCase) serverPath() bool {
 		return false
 	}
 	for _, m := range c.Msgs[:len(c.Msgs)-1] {
-		if m.Proto != "HTTP/1.1" || m.Conn != "" {
+		if m.Proto != "HTTP/1.1" || m.Conn != "" || m.Conn2 != "" {
 			return false
 		}
 	}
@@ -167,9 +167,9 @@ func shrinkSeg(ci interface{}) []interface{} {
 			x.Msgs[i].Body = m.Body / 2
 			out = append(out, x)
 		}
-		if m.Spacing != 0 || m.Conn != "" || m.ChunkExt {
+		if m.Spacing != 0 || m.Conn != "" || m.Conn2 != "" || m.ChunkExt {
 			x := cp()
-			x.Msgs[i].Spacing, x.Msgs[i].Conn, x.Msgs[i].ChunkExt = 0, "", false
+			x.Msgs[i].Spacing, x.Msgs[i].Conn, x.Msgs[i].Conn2, x.Msgs[i].ChunkExt = 0, "", "", false
 			out = append(out, x)
 		}
 	}
